@@ -33,7 +33,7 @@ for d in sorted(os.listdir(base)):
     if block:
         m['confirmed_in_scratch_worktree'] = block
         m['confirmed_by_me'] = 'tools/confirm_seeded.sh and tools/witness_seeded.sh, in the scratch worktree /tmp/wt/confirm at the /repo HEAD named below (results: seeded/CONFIRMED.txt, seeded/WITNESSED.txt)'
-    if '-w2' in d:
+    if '-w2' in d or '-w3' in d:
         m['patch'] = 'patch.diff (apply with: git -C /repo apply /verif/seeded/%s/patch.diff ; undo with: git -C /repo checkout -- .)' % d
         m['what_i_ran'] = 'tools/witness_seeded.sh %s (the check of the property, built against the scratch worktree with the patch applied, 30-40 s budget)' % d
         if w and 'class=' in w:
